@@ -2,6 +2,7 @@ mod gen;
 mod msg;
 mod ops;
 mod rng;
+mod script;
 
 use std::io::{BufRead, Write};
 
